@@ -35,7 +35,10 @@ PROPS = {
                 "non-permitted type; bad enum id as uid, nested, parent, principal, resource; undeclared type; undeclared / mismatching action; "
                 "principal / resource type not applicable), each through every schema-taking entry point (16 of them, core and public API); "
                 "non-trivial = every datum, distinct by fault tag + verdict + datum JSON",
-        "theorems": [],
+        "theorems": ["typecheckValue_iff", "checkValue_iff", "checkValue_iff_needs_schematic", "checkEntity_iff", "checkContext_iff",
+                     "checkRequest_iff", "single_fault_rejected_wrong_kind", "single_fault_rejected_value_set",
+                     "single_fault_rejected_value_record", "single_fault_rejected_euid", "single_fault_rejected_euid_nested",
+                     "single_fault_rejected_entity", "single_fault_rejected_action", "single_fault_rejected_request"],
         "assumptions": ["the resolved ValidatorSchema is taken from Rust (schema parsing/resolution is C09's subject)",
                         "values are concrete: the unknown/residual branches of the Rust checkers accept unconditionally and are outside C11",
                         "an extension value is identified with the call of its constructor (its return type is its own extension type)"],
